@@ -216,7 +216,30 @@ const REACHES: &[(&str, &str, &str)] = &[
     ("included_twice_in_child_block", "{% extends 'hb' %}{% block hbk %}{% include 't0' %}|{% include 't0' %}{% endblock %}", "<{% block hbk %}{% endblock %}>"),
     ("included_twice_in_child_block_of_late_named_host", "{% extends 'zzb' %}{% block hbk %}{% include 't0' %}|{% include 't0' %}{% endblock %}", "ZZB:<{% block hbk %}{% endblock %}>"),
     ("imported_twice_in_late_named_host", "{% extends 'zzb' %}{% block hbk %}{% import 't0' as ma %}{% import 't0' as mb %}{% include 't0' %}{% endblock %}", "ZZB:<{% block hbk %}{% endblock %}>"),
+    // the host shares ancestors with the chain it includes: it extends the chain's root (ROOT = the
+    // root's name), or the chain's most derived template itself, and includes t0 from its own block a -
+    // a page and a widget built on the same layout.  An include starts an inheritance chain of its own.
+    ("included_in_block_of_host_extending_the_chains_root", "{% extends 'ROOT' %}{% block a %}{% include 't0' %}{% endblock %}", ""),
+    ("included_twice_in_block_of_host_extending_the_chain", "{% extends 't0' %}{% block a %}{% include 't0' %}|{% include 't0' %}{% endblock %}", ""),
 ];
+
+/// expectation for the reaches whose host is itself part of the chain's family: the host is one more
+/// template on top of the chain (or of its root) whose block a holds the chain's own rendering
+fn reach_expect_shared(reach: usize, templates: &[Tmpl], out: &str) -> Result<String, String> {
+    let root = templates.len() - 1;
+    let (body, mut rest): (Vec<Item>, Vec<Tmpl>) = if reach == 12 {
+        (vec![Item::Text(out.to_string())], vec![templates[root].clone()])
+    } else {
+        (vec![Item::Text(format!("{}|{}", out, out))], templates.to_vec())
+    };
+    // parents are indices into the slice: shift by one for the host in front
+    for t in rest.iter_mut() {
+        t.parent = if reach == 12 { None } else { t.parent.map(|p| p + 1) };
+    }
+    let mut v = vec![Tmpl { name: "h".into(), extends_src: String::new(), parent: Some(1), top: vec![Item::Block("a".into(), body)] }];
+    v.append(&mut rest);
+    resolve(&v)
+}
 
 fn reach_expect(reach: usize, out: &str) -> String {
     match reach {
@@ -240,8 +263,9 @@ fn render_chain(templates: &[Tmpl], reach: usize) -> Result<Result<String, Error
             env.add_template_owned(t.name.clone(), tmpl_src(t)).map_err(|e| e.kind())?;
         }
         let (_, host, base) = REACHES[reach];
+        let host_src = host.replace("ROOT", &templates[templates.len() - 1].name);
         if !host.is_empty() {
-            env.add_template("h", host).map_err(|e| e.kind())?;
+            env.add_template_owned("h", host_src).map_err(|e| e.kind())?;
         }
         if !base.is_empty() {
             // the reach's host template names its base itself: "hb" or "zzb"
@@ -257,7 +281,7 @@ fn render_chain(templates: &[Tmpl], reach: usize) -> Result<Result<String, Error
 fn check_chain(len: usize, code: u64, with_c: bool, form: ExtForm, reach: usize, acc: &Acc, l: &mut Local) {
     let templates = build_chain(len, code, with_c, form);
     l.evals += 1;
-    let want = resolve(&templates).map(|o| reach_expect(reach, &o));
+    let want = resolve(&templates).and_then(|o| if reach >= 12 { reach_expect_shared(reach, &templates, &o) } else { Ok(reach_expect(reach, &o)) });
     let got = render_chain(&templates, reach);
     let mk = |clause: &str, detail: String| Failure {
         key: format!("inheritance {} chain_len={} extends={:?} reach={}", clause, len, form, REACHES[reach].0),
@@ -613,11 +637,131 @@ fn name_form_family(acc: &Acc) {
     }
 }
 
+/// relative names: with a path-join callback a template is named differently by different referrers
+/// (`./b`, `../d/b`, `b`, `x/../b`).  What the property says about chains, cycles and missing
+/// templates is about the templates, not about the spelling of their names: chains of 1..3 links
+/// through every spelling render like the plainly named chain, cycles of length 1..3 are errors.
+struct RelCase {
+    name: String,
+    templates: Vec<(String, String)>,
+    expect: Result<String, &'static str>,
+}
+
+fn relative_cases() -> Vec<RelCase> {
+    let spell = |form: usize, k: usize| -> String {
+        match form {
+            0 => format!("./t{}", k),
+            1 => format!("../d/t{}", k),
+            2 => format!("t{}", k),
+            3 => format!("x/../t{}", k),
+            _ => format!("./././t{}", k),
+        }
+    };
+    let mut v = vec![];
+    for tag in ["extends", "include", "import"] {
+        for len in 1..=3usize {
+            for form in 0..5usize {
+                for cyclic in [false, true] {
+                    // d/t0 refers to d/t1 ... d/t(len-1) refers to d/t(len) (or, cyclic, back to d/t0);
+                    // every reference uses a different spelling, starting at `form`
+                    let mut templates = vec![];
+                    let n = if cyclic { len } else { len + 1 };
+                    for k in 0..n {
+                        let last = k + 1 == n;
+                        let target = if last && cyclic { 0 } else { k + 1 };
+                        let r = spell((form + k) % 5, target);
+                        let src = if last && !cyclic {
+                            match tag {
+                                "extends" => "<{% block b %}B{% endblock %}>".to_string(),
+                                "include" => "[leaf]".to_string(),
+                                _ => "{% macro m() %}(leaf){% endmacro %}".to_string(),
+                            }
+                        } else {
+                            match tag {
+                                "extends" => format!("{{% extends '{}' %}}{{% block b %}}{{{{ super() }}}}{}{{% endblock %}}", r, k),
+                                "include" => format!("{}({{% include '{}' %}})", k, r),
+                                _ => format!("{{% import '{}' as lib %}}{{% macro m() %}}{}{{{{ lib.m() }}}}{{% endmacro %}}", r, k),
+                            }
+                        };
+                        templates.push((format!("d/t{}", k), src));
+                    }
+                    if tag == "import" {
+                        templates.push(("d/main".into(), "{% import 't0' as lib %}{{ lib.m() }}".into()));
+                    }
+                    let expect: Result<String, &'static str> = if cyclic {
+                        Err(if tag == "extends" { "InvalidOperation" } else { "any error but OutOfFuel" })
+                    } else {
+                        Ok(match tag {
+                            "extends" => format!("<B{}>", (0..len).rev().map(|k| k.to_string()).collect::<String>()),
+                            "include" => {
+                                let mut s = "[leaf]".to_string();
+                                for k in (0..len).rev() {
+                                    s = format!("{}({})", k, s);
+                                }
+                                s
+                            }
+                            _ => format!("{}(leaf)", (0..len).map(|k| k.to_string()).collect::<String>()),
+                        })
+                    };
+                    v.push(RelCase { name: format!("{} len={} spelling#{} {}", tag, len, form, if cyclic { "cyclic" } else { "chain" }), templates, expect });
+                }
+            }
+        }
+    }
+    v
+}
+
+fn relative_family(acc: &Acc, only: Option<&str>) {
+    let cases = relative_cases();
+    acc.count("relative_name_cases", cases.len() as u64);
+    for c in cases {
+        if only.map_or(false, |o| o != c.name) {
+            continue;
+        }
+        acc.eval(1);
+        let main = if c.name.starts_with("import") { "d/main" } else { "d/t0" };
+        let got = run_templates_opts(c.templates.clone(), main.to_string(), true);
+        let ok = match (&got, &c.expect) {
+            (Ok(Ok(s)), Ok(e)) => s == e,
+            (Ok(Err(k)), Err(e)) => k != "OutOfFuel" && (*e == "any error but OutOfFuel" || k == e),
+            _ => false,
+        };
+        if ok {
+            acc.outcome(if c.expect.is_ok() { "relative chain renders as the plain one" } else { "relative cycle is an error" });
+            acc.nontrivial(fnv(c.name.as_bytes()));
+        } else {
+            let class = match &got {
+                Err(m) if m.starts_with("HANG") => "hang",
+                Err(_) => "panic",
+                Ok(Err(k)) if k == "OutOfFuel" => "never_ends",
+                Ok(Ok(_)) if c.expect.is_err() => "reported_as_success",
+                Ok(Err(_)) if c.expect.is_ok() => "unexpected_error",
+                Ok(Err(_)) => "wrong_error_kind",
+                _ => "output_differs",
+            };
+            let tag = c.name.split(' ').next().unwrap().to_string();
+            acc.fail(Failure {
+                key: format!("relative {} tag={} {}", class, tag, if c.expect.is_ok() { "chain" } else { "cyclic" }),
+                case: c.name.clone(),
+                detail: format!("templates {:?}: got {:?}, expected {:?}", c.templates, got, c.expect),
+                replay: json!({"kind": "relative", "name": c.name}),
+            });
+        }
+    }
+}
+
 fn run_case(c: &Case) -> Result<Result<String, String>, String> {
     run_templates(c.templates.iter().map(|(a, b)| (a.to_string(), b.to_string())).collect(), c.main.to_string())
 }
 
 fn run_templates(templates: Vec<(String, String)>, main: String) -> Result<Result<String, String>, String> {
+    run_templates_opts(templates, main, false)
+}
+
+/// `rel`: the environment joins template names relative to the referring template's directory (the
+/// callback of the documentation) and carries a fuel budget, so that a chain that never ends comes
+/// back as OutOfFuel instead of eating the machine
+fn run_templates_opts(templates: Vec<(String, String)>, main: String, rel: bool) -> Result<Result<String, String>, String> {
     // in a helper thread with a wall cap: "rather than hangs" is part of the statement
     let (tx, rx) = std::sync::mpsc::channel();
     std::thread::Builder::new()
@@ -625,6 +769,23 @@ fn run_templates(templates: Vec<(String, String)>, main: String) -> Result<Resul
         .spawn(move || {
             let r = catch(|| {
                 let mut env = Environment::new();
+                if rel {
+                    env.set_fuel(Some(2_000_000));
+                    env.set_path_join_callback(|name, parent| {
+                        let mut segs: Vec<&str> = parent.split('/').collect();
+                        segs.pop();
+                        for seg in name.split('/') {
+                            match seg {
+                                "." => {}
+                                ".." => {
+                                    segs.pop();
+                                }
+                                s => segs.push(s),
+                            }
+                        }
+                        segs.join("/").into()
+                    });
+                }
                 for (n, s) in &templates {
                     env.add_template_owned(n.clone(), s.clone()).map_err(|e| format!("{:?}", e.kind()))?;
                 }
@@ -659,10 +820,12 @@ pub fn main(args: Args) -> i32 {
                 println!("{}: {}", t.name, tmpl_src(t));
             }
             let reach = j["reach"].as_u64().unwrap_or(0) as usize;
-            println!("reach: {:?}\nresolver: {:?}\nengine:   {:?}", REACHES[reach], resolve(&templates).map(|o| reach_expect(reach, &o)), render_chain(&templates, reach));
+            println!("reach: {:?}\nresolver: {:?}\nengine:   {:?}", REACHES[reach], resolve(&templates).and_then(|o| if reach >= 12 { reach_expect_shared(reach, &templates, &o) } else { Ok(reach_expect(reach, &o)) }), render_chain(&templates, reach));
             check_chain(j["len"].as_u64().unwrap() as usize, j["code"].as_u64().unwrap(), j["with_c"].as_bool().unwrap(), form, reach, &acc, &mut l);
         } else if j["kind"] == "name_form" {
             name_form_family(&acc);
+        } else if j["kind"] == "relative" {
+            relative_family(&acc, j["name"].as_str());
         } else {
             for c in fixed_cases().iter().filter(|c| Some(c.name) == j["name"].as_str()) {
                 println!("{:?}", run_case(c));
@@ -750,6 +913,7 @@ pub fn main(args: Args) -> i32 {
         }
     }
     name_form_family(&acc);
+    relative_family(&acc, None);
     // composition does not wear out: every fixed case that renders is included REPEAT times from one
     // host render and must give its output REPEAT times (includes, imports and inheritance charge and
     // release per-render resources such as the recursion budget; nothing may be left behind)
